@@ -217,7 +217,11 @@ func (f *family) rollup() {
 			}
 
 			// finally, need commit edit log
-			f.commitEditLog(editLog)
+			if ok := f.commitEditLog(editLog); !ok {
+				// the rollup marks are still there: keep the target families' references,
+				// they are what stops the next rollup from merging these files again
+				return
+			}
 
 			// clean reference files from target file
 			for targetFamily, files := range targetFamiles {
